@@ -894,13 +894,15 @@ def _oracle_issue(case, o, obs, requested_checks):
         if rc == "other" or ac == "other":
             return v          # the requested identity or the server address is not a name the property speaks about
         cn = up["cn"] if up else None
-        if cn and not _is_ip(cn) and _idna(cn) is None:
+        cn_usable = bool(cn) and (_is_ip(cn) or _idna(cn) is not None)
+        if o["err"] == "idna" and cn and not cn_usable:
             return [{"key": "upstream-cn-not-a-hostname",
-                     "what": f"get_cert raises {o['err']} (no certificate for the client) for sni={r['sni']!r} because the "
+                     "what": f"get_cert raises UnicodeError (no certificate for the client) for sni={r['sni']!r} because the "
                              f"upstream certificate's CN {cn!r} cannot be IDNA-encoded"}]
-        if up and not cn and up["sans"] and up["sans"][0][0] == "d" and up["sans"][0][1] == "":
+        if o["err"] == "value" and up and not cn_usable and up["sans"] and up["sans"][0][0] == "d" and up["sans"][0][1] == "":
             return [{"key": "upstream-empty-first-san",
-                     "what": f"get_cert raises {o['err']} for sni={r['sni']!r}: upstream certificate without CN whose first SAN is an empty dNSName"}]
+                     "what": f"get_cert raises ValueError for sni={r['sni']!r}: the upstream certificate contributes no usable CN "
+                             f"(CN {cn!r}) and its first SAN is an empty dNSName, so the common name is ''"}]
         return [{"key": "get-cert-raises", "what": f"get_cert raises {o['err']} for sni={r['sni']!r} sock={r['sock']!r} addr={r['addr']!r} upstream={r['up']!r}"}]
     c = o["cert"]
     d = S["cas"][case["ca"]]["desc"]
@@ -930,6 +932,8 @@ def _oracle_issue(case, o, obs, requested_checks):
         v.append({"key": "empty-san", "what": "no subjectAltName"})
     if c["cn"] is None and c["org"] is None and not c["san_critical"]:
         v.append({"key": "san-not-critical", "what": "empty subject but subjectAltName not critical"})
+    if requested_checks is False and c["san_critical"] and (c["cn"] is not None or c["org"] is not None):
+        pass  # reported through the strict validator in issue cases (san-critical-with-nonempty-subject)
     if requested_checks:
         if obs["real_now_ok"] is False:
             v.append({"key": "not-valid-now", "what": f"validity [{c['nb']}, {c['na']}] does not contain the time of issue "
@@ -944,6 +948,9 @@ def _oracle_issue(case, o, obs, requested_checks):
                 key = "verify-fails"
                 if rc == "dns" and AMBIG_V4.fullmatch(req) and all(w == "py" for w, _ in bad):
                     key = "ipv4-lookalike-issued-as-dns"
+                elif all(w == "rust" and "subjectAltName MUST NOT be critical" in x for w, x in bad) \
+                        and c["san_critical"] and (c["cn"] is not None or c["org"] is not None):
+                    key = "san-critical-with-nonempty-subject"
                 v.append({"key": key, "what": f"certificate served for {req!r} (reference identity {obs.get('ref')!r}, CA config "
                                               f"{case['ca']}) is rejected: {bad!r}; SANs {c['sans']!r}"})
             elif not applicable:
